@@ -169,7 +169,7 @@ def run(ctx):
                       witness="filter names are lost on reload")
     up = PR.up
     att = [st for st in walk_no_nested(up.node) if isinstance(st, ast.Assign) and any(isinstance(t, ast.Attribute) and t.attr == "hash_comments"
-                                                                                       and "curcommand" in norm(t.value) for t in st.targets)]
+                                                                                       and PR.an("curcommand") in norm(t.value) for t in st.targets)]
     rst = [st for st in walk_no_nested(up.node) if isinstance(st, ast.Assign) and any(isinstance(t, ast.Attribute) and t.attr == "hash_comments"
                                                                                        and isinstance(t.value, ast.Name) for t in st.targets)]
     cfgu = ctx.cfg(up)
